@@ -23,7 +23,7 @@ def canon_files(arch):
 
 def run(ctx):
     quick = ctx.tier == "quick"
-    n, nsteps = (8, 6) if quick else (200, 14)
+    n, nsteps = (14, 7) if quick else (200, 14)
     ctx.cov["rule"] = ("random histories (source changes, backups with random options, deletes, gc; no kills) each replayed into fresh archives "
                        "under four runtime flavours (current-thread, multi-thread with 1, 2 and 8 workers): same set of files, byte-identical "
                        "contents except start_time/end_time in heads and tails; the model's final state (a function of the history by "
